@@ -8,6 +8,10 @@ code -> spec : every such execution, plus the repository fixtures, plus seeded d
                recorded (errors popped after every segment, counters, loop stack, cleanup errors)
                and validated by TLC against T_Envelope: the Recount definition decides violations,
                the Envelope transcription reports drift.
+Control numbers: EnvelopeGen renders its abstract ids into the concrete strings of the document
+               (styles num / alnum / unpad, see EnvelopeGen.tla); they are written verbatim and the
+               recorded events carry what the real reader parsed (ISA13, GS06, ST02, SE02, GE02,
+               IEA02 as text), so Recount judges textual equality of the strings actually read.
 """
 import io
 import json
@@ -29,21 +33,28 @@ KINDMAP = {'ISA': 'ISA', 'GS': 'GS', 'ST': 'ST', 'SE': 'SE', 'GE': 'GE', 'IEA': 
 
 
 # ------------------------------------------------------------------ concretisation
-def seg_elems(s):
+def seg_elems(s, pad=True):
+    """elements of the segment for an abstract record; pad=True zero-pads the control number to 9 characters
+    (callers with short abstract ids: c11, c20), pad=False writes it verbatim (C04: the history holds the
+    concrete strings)"""
+    return _elems(dict(s, id=s['id'].rjust(9, '0')) if pad else s)
+
+
+def _elems(s):
     k = s['k']
     if k == 'ISA':
         return ['ISA', '00', ' ' * 10, '00', ' ' * 10, 'ZZ', 'SENDER'.ljust(15), 'ZZ', 'RECEIVER'.ljust(15),
-                '200101', '1200', 'U', '00401', s['id'].rjust(9, '0'), '0', 'P', None]
+                '200101', '1200', 'U', '00401', s['id'], '0', 'P', None]
     if k == 'GS':
-        return ['GS', 'HC', 'SENDER', 'RECEIVER', '20200101', '1200', s['id'].rjust(9, '0'), 'X', '004010X098A1']
+        return ['GS', 'HC', 'SENDER', 'RECEIVER', '20200101', '1200', s['id'], 'X', '004010X098A1']
     if k == 'ST':
-        return ['ST', '837', s['id'].rjust(9, '0')]
+        return ['ST', '837', s['id']]
     if k == 'SE':
-        return ['SE', s['cnt'], s['id'].rjust(9, '0')]
+        return ['SE', s['cnt'], s['id']]
     if k == 'GE':
-        return ['GE', s['cnt'], s['id'].rjust(9, '0')]
+        return ['GE', s['cnt'], s['id']]
     if k == 'IEA':
-        return ['IEA', s['cnt'], s['id'].rjust(9, '0')]
+        return ['IEA', s['cnt'], s['id']]
     if k == 'HL':
         return ['HL', s['n'], s['p'], '20', '1']
     if k == 'CLM':
@@ -53,11 +64,11 @@ def seg_elems(s):
     return ['REF', 'EA', 'X1']
 
 
-def concretise(hist, triple, eol=''):
+def concretise(hist, triple, eol='', pad=True):
     st, et, ct = triple
     out = []
     for s in hist:
-        el = seg_elems(s)
+        el = seg_elems(s, pad)
         if el[0] == 'ISA':
             el = el[:-1] + [ct]
         out.append(et.join(el) + st + eol)
@@ -117,13 +128,12 @@ def record_text(tid, text, lx, hist=None):
             nxt = hist[i] if hist is not None and i < len(hist) else {'k': 'B', 'id': '', 'cnt': '', 'n': '', 'p': ''}
             events.append({'seg': nxt, 'errs': [], 'st': proj_state(rd), 'exc': type(e).__name__})
             break
+        # what the real reader parsed (control numbers as the text of the document) is what TLC judges
         a = abstract(seg)
-        if hist is not None and i < len(hist):
-            # normalise padded ids back to the abstract ones so that TLC compares like with like
-            a = dict(hist[i])
+        if hist is not None and (i >= len(hist) or a != hist[i]):
+            raise vlib.MachineryError('C04 harness: the reader did not read back segment %d of the generated history %s: %r'
+                                      % (i + 1, shape(hist), a))
         ev = {'seg': a, 'errs': codes_of(rd.pop_errors()), 'st': proj_state(rd), 'exc': ''}
-        if hist is not None:
-            ev['st']['loops'] = [[x, y.lstrip('0') or y] for x, y in ev['st']['loops']]
         events.append(ev)
         i += 1
     if not events or events[-1]['exc'] == '':
@@ -140,9 +150,11 @@ def _record_batch(args):
     out = []
     for j, h in enumerate(hists):
         tid = base + j
-        text = concretise(h, TRIPLES[tid % len(TRIPLES)], ['', '\n', '\r\n'][tid % 3] if TRIPLES[tid % len(TRIPLES)][0] != '\n' else '')
+        text = concretise(h, TRIPLES[tid % len(TRIPLES)], ['', '\n', '\r\n'][tid % 3] if TRIPLES[tid % len(TRIPLES)][0] != '\n' else '', pad=False)
         tr = record_text(tid, text, lx, h)
         # the reader must have consumed exactly the history (otherwise the concretiser and the tokenizer disagree)
+        if len(tr['events']) != len(h) and not (tr['events'] and tr['events'][-1]['exc']):
+            raise vlib.MachineryError('C04 harness: %d segments read back from the %d of %s' % (len(tr['events']), len(h), shape(h)))
         out.append(tr)
     return out
 
@@ -213,14 +225,16 @@ def validate(chk, traces, label, hist_of=None):
 
 
 # ------------------------------------------------------------------ generation
-P1 = 'Prefix1'
-P3 = 'Prefix3'
+P1 = 1          # behaviours start with ISA
+P3 = 3          # behaviours start with ISA GS ST
+NUM = ('num',)
+ALLSTYLES = ('num', 'alnum', 'unpad')
 
 
-def gen_cfg(maxlen, kinds, ids, modes, lx, prefix, view=False, nested=False):
-    cfg = 'SPECIFICATION Spec\nCONSTANTS MaxLen = %d\n Kinds = {%s}\n Ids = {%s}\n CntModes = {%s}\n CheckLX = %s\n Prefix <- %s\n EmitAll = TRUE\n NestedOnly = %s\n' % (
+def gen_cfg(maxlen, kinds, ids, modes, lx, prefix, view=False, nested=False, styles=NUM):
+    cfg = 'SPECIFICATION Spec\nCONSTANTS MaxLen = %d\n Kinds = {%s}\n Ids = {%s}\n CntModes = {%s}\n CheckLX = %s\n PrefixLen = %d\n Styles = {%s}\n EmitAll = TRUE\n NestedOnly = %s\n' % (
         maxlen, ','.join('"%s"' % k for k in kinds), ','.join('"%s"' % i for i in ids), ','.join('"%s"' % m for m in modes),
-        'TRUE' if lx else 'FALSE', prefix, 'TRUE' if nested else 'FALSE')
+        'TRUE' if lx else 'FALSE', prefix, ','.join('"%s"' % x for x in styles), 'TRUE' if nested else 'FALSE')
     cfg += 'INVARIANT ExactOnNested\nINVARIANT NoCrash\nINVARIANT CleanupOnNested\nINVARIANT SomeErrorWhenNotNested\nINVARIANT Emit\n'
     if view:
         cfg += 'VIEW ImplView\n'
@@ -234,6 +248,9 @@ def configs(tier):
     q = tier == 'quick'
     return [
         ('env-full', gen_cfg(4 if q else 5, ENV, ['1', '2'], ['right', 'wrong'], False, P1), None, False),
+        # control numbers that are not numbers / trailers written without the header's padding, all three levels:
+        # every properly nested envelope sequence up to a complete interchange (declared counts right)
+        ('env-ids', gen_cfg(6 if q else 8, ENV[:-1], ['1', '2'], ['right'], False, P1, nested=True, styles=('alnum', 'unpad')), None, False),
         ('env-nonnum', gen_cfg(6 if q else 7, ENV, ['1', '2'], ['right', 'wrong', 'nonnum'], False, P3, view=True), None, False),
         ('env-nested-deep', gen_cfg(12 if q else 15, ENV, ['1', '2'], ['right', 'wrong'], False, P1, view=True, nested=True), None, False),
         ('env-deep-view', gen_cfg(5 if q else 8, ENV, ['1', '2'], ['right', 'wrong'], False, P1, view=True), None, False),
@@ -241,7 +258,7 @@ def configs(tier):
         ('hl-wrong', gen_cfg(6 if q else 8, ['ST', 'SE', 'HL', 'B'], ['1'], ['right', 'wrong', 'nonnum'], False, P3), None, False),
         ('lx', gen_cfg(8 if q else 9, ['ST', 'SE', 'CLM', 'LX', 'B'], ['1', '2'], ['right', 'wrong'], True, P3, view=True), None, True),
         ('lx-off', gen_cfg(7, ['CLM', 'LX', 'SE', 'ST'], ['1'], ['right', 'wrong'], False, P3, view=True), None, False),
-        ('sim-all', gen_cfg(24 if q else 40, ENV + ['HL', 'CLM', 'LX'], ['1', '2', '3'], ['right', 'wrong', 'nonnum'], True, P1),
+        ('sim-all', gen_cfg(24 if q else 40, ENV + ['HL', 'CLM', 'LX'], ['1', '2', '3'], ['right', 'wrong', 'nonnum'], True, P1, styles=ALLSTYLES),
          'num=%d' % (50 if q else 3000), True),
     ]
 
@@ -263,7 +280,7 @@ def run(tier, replay=None):
     if replay:
         obj = json.load(open(replay))['replay']
         h = obj['history']
-        tr = record_text(0, concretise(h, TRIPLES[0]), obj.get('lx', False), h)
+        tr = record_text(0, concretise(h, TRIPLES[0], pad=False), obj.get('lx', False))
         print('history  :', shape(h))
         print('observed :', json.dumps([[e['errs'], e['exc']] for e in tr['events']]), 'cleanup', tr['cleanup'])
         print('recorded clause:', obj.get('clause'), 'at step', obj.get('step'))
@@ -311,7 +328,8 @@ def run(tier, replay=None):
     traces = [t for t in traces if 'open_exc' not in t]
     validate(chk, traces, 'fixtures')
     chk.extra['model_level_differences'] = modeldiff
-    chk.assumptions = ['control numbers range over 2-3 distinct values (only equality matters to the checks)',
+    chk.assumptions = ['control numbers range over 2-3 distinct values per level, each written as equally zero-padded digits, as 9 characters '
+                       'ending in a letter, or zero-padded in the header and unpadded in the trailer; the definition compares the text read',
                        'a blank HL02 makes no claim about the parent and closes no open level (DESIGN.md C04)',
                        'LX numbering is only claimed after a CLM of the same set and when the caller enabled the 837 check']
     return chk.finish()
